@@ -69,7 +69,7 @@ theorem flat_view_agrees_with_element_view (s : PStruct α) (hw : s.WF = true) (
 theorem list_struct_view_exists (s : PStruct α) (hw : s.WF = true) (hne : s.nullEmpty = true) (ha : s.aligned)
     (k0 : PField α) (ks : List (PField α)) (hk : s.kids = k0 :: ks) :
     ∃ l, transposeSL s false = .ok l ∧ l.offs = rebased k0.list.offs :=
-  transposeSL_ok s hw hne ha k0 ks hk
+  ⟨_, transposeSL_ok s hw hne ha k0 ks hk, rfl⟩
 
 /-- non-vacuity: a sliced list array with a null list -/
 example : Samples.la.WF = true ∧ Samples.la.nullEmpty = true ∧
